@@ -454,6 +454,8 @@ OutName(fr) == CASE fr.u = "body" -> "body.out" [] fr.u = "cond" -> "cond.out"
 Produce(fr) ==
   CASE fr.u = "body" -> FN(fr.f).out[fr.a + 1]
     [] fr.u = "cond" ->
+         \* (raises: the condition cannot be evaluated for this call - it is only defined when an earlier one holds)
+         IF CON(fr.f).rv = "raises" THEN Raise("Exception", 900 + fr.f) ELSE
          IF CON(fr.f).rv = "coro" /\ (fr.sub = "inv" \/ ~FN(fr.g).async) THEN Ret(2) ELSE
          IF CON(fr.f).rv = "badbool" THEN Ret(3) ELSE
          IF CON(fr.f).rv = "future" THEN Ret(4) ELSE
